@@ -3,6 +3,8 @@ package logqlmetric
 import (
 	"regexp"
 
+	"github.com/cespare/xxhash/v2"
+
 	"github.com/tdakkota/docker-logql/internal/logql"
 	"github.com/tdakkota/docker-logql/internal/lokiapi"
 )
@@ -25,10 +27,12 @@ type AggregatedLabels interface {
 	AsLokiAPI() lokiapi.LabelSet
 }
 
+// emptyLabels is a label set without labels. Its grouping key is the hash of no label
+// pairs: the key every other AggregatedLabels implementation computes for an empty set.
 type emptyLabels struct{}
 
 func (l *emptyLabels) By(_ ...logql.Label) AggregatedLabels                      { return l }
 func (l *emptyLabels) Without(_ ...logql.Label) AggregatedLabels                 { return l }
-func (l *emptyLabels) Key() GroupingKey                                          { return 0 }
+func (l *emptyLabels) Key() GroupingKey                                          { return xxhash.Sum64(nil) }
 func (l *emptyLabels) Replace(_, _, _ string, _ *regexp.Regexp) AggregatedLabels { return l }
 func (l *emptyLabels) AsLokiAPI() lokiapi.LabelSet                               { return lokiapi.LabelSet{} }
